@@ -38,7 +38,6 @@ struct VThread {
 	TState st;
 	const void * waitObj;
 	sem_t sem;
-	std::thread th;
 	bool timedOut;
 	long spinStamp;
 	VClock vc;
@@ -76,6 +75,7 @@ public:
 	// happens-before race detection on annotated locations
 	struct Loc { VClock lastWrite; int lastWriter; VClock reads; const char * wtag; };
 	std::unordered_map<const void *, Loc> locs;
+	std::unordered_map<const void *, VClock> spinClocks;
 	std::vector<std::pair<const char *, const char *> > sharedRanges;
 	bool raceDetection;
 
@@ -92,7 +92,7 @@ public:
 	// ---- lifecycle (called on the harness's main thread, which becomes thread 0)
 	void begin() {
 		for(size_t i = 0; i < threads.size(); ++i) { sem_destroy(&threads[i]->sem); delete threads[i]; }
-		threads.clear(); locs.clear(); sharedRanges.clear();
+		threads.clear(); locs.clear(); spinClocks.clear(); sharedRanges.clear();
 		active = true; aborting = false; steps = 0; progress = 0; horizonHit = false; preemptions = 0;
 		deadlock = DeadlockInfo();
 		VThread * t0 = new VThread();
@@ -507,6 +507,18 @@ template <typename K, typename V> using VHashMap = VMapT<std::unordered_map<K, V
 
 // hook entry points called by the EVENTPP_VERIF_POINT / _SPIN macros in eventpp
 #ifdef VERIF_DEFINE_HOOKS
-extern "C" void eventpp_verif_point(const char * tag, const void *) { verif::sched().point(tag); }
+extern "C" void eventpp_verif_point(const char * tag, const void * obj) {
+	verif::Sched & s = verif::sched();
+	if(tag[0] == 's' && strncmp(tag, "spinlock.", 9) == 0) {
+		// SpinLock is a mutex for the happens-before relation; only the attempt to lock is a scheduling point
+		verif::VThread * m = verif::Sched::me();
+		if(!s.active || s.aborting || !m) return;
+		if(tag[9] == 'l') s.point(tag);
+		else if(tag[9] == 'a') m->vc.join(s.spinClocks[obj]);
+		else { s.spinClocks[obj].join(m->vc); m->vc.c[m->id]++; ++s.progress; }
+		return;
+	}
+	s.point(tag);
+}
 extern "C" void eventpp_verif_spin(const char * tag, const void *) { verif::sched().spin(tag); }
 #endif
